@@ -121,6 +121,11 @@ def admits (T : Tables) (u : UnitRow) (p : Str) : Bool :=
 
 /-! ## decidable table conditions (decided by the kernel over the regenerated table) -/
 
+/-- Boolean `Nodup` (fast in the kernel) -/
+def nodupB : List Str → Bool
+  | [] => true
+  | a :: t => !t.contains a && nodupB t
+
 /-- prefixes a unit admits -/
 def admPrefixes (T : Tables) (u : UnitRow) : List Str := T.prefixKeys.filter (admits T u)
 
@@ -135,23 +140,25 @@ def factF2 (T : Tables) : Bool :=
 
 /-- F3: prefixes are pairwise distinct and non-empty -/
 def factF3 (T : Tables) : Bool :=
-  decide (T.prefixKeys.Nodup) && T.prefixKeys.all (fun p => p != [])
+  nodupB T.prefixKeys && T.prefixKeys.all (fun p => p != [])
 
 def isNumAlpha (c : Char) : Bool := c.isDigit || c == '-' || c == '.' || c == 'e' || c == '+'
 
 /-- F4: every unit symbol has a character that cannot occur in a number literal; no prefix or
-    unit symbol starts with the system-unit mark or contains the key separator -/
+    unit symbol starts with the system-unit mark (or a blank) or contains the key separator -/
 def factF4 (T : Tables) : Bool :=
-  T.units.all (fun u => u.sym.any (fun c => !isNumAlpha c) && u.sym.head? != some '#' && !u.sym.contains ':') &&
+  T.units.all (fun u => u.sym.any (fun c => !isNumAlpha c) && u.sym.head? != some '#' && u.sym.head? != some ' '
+    && !u.sym.contains ':') &&
   T.prefixKeys.all (fun p => p.head? != some '#' && !p.contains ':')
 
 /-- the list `check_unique_symbols` builds: every symbol and every admitted prefix++symbol -/
 def allSymbols (T : Tables) : List Str :=
   T.units.flatMap (fun u => ([] :: admPrefixes T u).map (fun p => p ++ u.sym))
 
-/-- F5: `check_unique_symbols`' condition; prefix lists only name existing prefixes -/
+/-- F5: unit symbols are pairwise distinct; prefix lists only name existing prefixes
+    (with F1 this gives `check_unique_symbols`' condition, see `C03_table_unique`) -/
 def factUnique (T : Tables) : Bool :=
-  decide ((allSymbols T).Nodup) &&
+  nodupB (T.units.map (·.sym)) &&
   T.units.all (fun u => match u.pref with | .only l => l.all (fun p => T.prefixKeys.contains p) | _ => true)
 
 /-- F6: all magnitudes are positive, all dimension vectors have 8 entries with non-zero denominators -/
